@@ -73,6 +73,22 @@ func (fr *Frame) call(st *State, call ssa.CallInstruction) []Term {
 			k = extKey(fn)
 		}
 		vc.recordCallArgs(k, args, ats)
+		// the static type boxed into an interface argument (callarg(key, i, "dyn"))
+		if vc.callArgDyn == nil {
+			vc.callArgDyn = map[string][]cval{}
+		}
+		for _, kk := range []string{k, fmt.Sprintf("%s#%d", k, vc.argCount[k])} {
+			if _, seen := vc.callArgDyn[kk]; seen {
+				continue
+			}
+			dts := make([]cval, len(c.Args))
+			for i, a := range c.Args {
+				if mi, ok := a.(*ssa.MakeInterface); ok {
+					dts[i] = cval{fr.val(mi.X), vc.ctOf(mi.X.Type())}
+				}
+			}
+			vc.callArgDyn[kk] = dts
+		}
 	}
 	if h, ok := extHandlers[extKey(fn)]; ok {
 		if res, handled := h(fr, st, call, fn, args); handled {
